@@ -1,6 +1,51 @@
-(* C04 — placeholder while the invariants are being proved (see Proofs/ExecProofs.v). *)
-From Coq Require Import List.
-From FB Require Import Model.Exec.
-Example C04_model_runs : exists nt s, run nt 1 (init nt) nil = Ok s.
-Proof. exists nil, (init nil). reflexivity. Qed.
-Print Assumptions C04_model_runs.
+(* C04 — Backpressure never loses events; discard drops are counted and never block.
+   [try_send] is one delivery attempt into a node's channel (deliverToChild for one event; since the repairs
+   recorded in known_findings.json also the delivery to an error handler and the main loop's copy to a root).
+   "Never makes its parent, siblings or the source wait" is the statement that the delivery step is enabled in
+   every state; that the REAL code does not wait is what the lockstep correspondence observes (a stalled
+   discarding subtree must leave every other observable as the model predicts). *)
+From Coq Require Import List ZArith Bool Arith.
+From FB Require Import Model.Exec Model.TraceSpec Model.ExecInv.
+From FB Require Proofs.ExecCount Proofs.ExecProps.
+Import ListNotations.
+
+(* a node without the flag never loses anything, in any reachable state, however slow it is: its producer
+   waits instead (the send is simply not enabled while the buffer is full) *)
+Theorem C04_no_loss_without_flag : forall nt T s, reachable nt T s ->
+  forall c, ndisc (info nt c) = false -> dropped (node s c) = [].
+Proof. intros nt T s H. exact (proj1 (proj2 (proj2 (proj2 (ExecCount.count_inv_reachable nt T s H))))). Qed.
+Theorem C04_full_nondiscarding_blocks : forall nt s c it,
+  ndisc (info nt c) = false -> closed (node s c) = false -> length (q (node s c)) >= ncap (info nt c) ->
+  try_send nt s c it = Blocked.
+Proof. exact ExecCount.full_nondiscard_blocks. Qed.
+
+(* a drop happens only at a full buffer of a node marked discard_on_full_buffer, loses exactly that event,
+   and is counted in discarded_events_total of that node *)
+Theorem C04_drop_only_when_full_and_counted : forall nt s c it s',
+  try_send nt s c it = Sent s' -> dropped (node s' c) <> dropped (node s c) ->
+  ndisc (info nt c) = true /\ length (q (node s c)) >= ncap (info nt c)
+  /\ dropped (node s' c) = it :: dropped (node s c) /\ c_disc (node s' c) = S (c_disc (node s c))
+  /\ q (node s' c) = q (node s c).
+Proof. exact ExecCount.drop_only_when_full. Qed.
+Theorem C04_discards_counted : forall nt T s n, reachable nt T s -> n < length nt ->
+  c_disc (node s n) = length (dropped (node s n)).
+Proof. intros nt T s n H Hn. exact (proj2 (proj2 (proj2 (proj2 (ExecProps.counters_meaning nt T s n H Hn))))). Qed.
+
+(* a delivery to an open discarding node is enabled in EVERY state: it never makes the sender wait *)
+Theorem C04_discarding_never_blocks : forall nt s c it,
+  ndisc (info nt c) = true -> closed (node s c) = false -> exists s', try_send nt s c it = Sent s'.
+Proof. exact ExecCount.discard_never_blocks. Qed.
+
+(* losses are exactly accounted: produced = handed over + discarded, at a clean end *)
+Theorem C04_clean_end_exact : forall nt T s c x,
+  ExecProps.good_net nt -> reachable nt T s -> mn s = MDone -> timedout s = false -> c < length nt ->
+  count_item x (supply nt c (tr s)) = count_item x (entered c (tr s)) + count_item x (dropped (node s c))
+  /\ q (node s c) = [] /\ pending c x s = 0.
+Proof. exact ExecProps.clean_end_exact. Qed.
+
+Print Assumptions C04_no_loss_without_flag.
+Print Assumptions C04_full_nondiscarding_blocks.
+Print Assumptions C04_drop_only_when_full_and_counted.
+Print Assumptions C04_discards_counted.
+Print Assumptions C04_discarding_never_blocks.
+Print Assumptions C04_clean_end_exact.
